@@ -130,7 +130,7 @@ SELFTESTS = [selftest_json, selftest_ref_paths]
 
 def obligations(tier: str):
     obls = []
-    t = 300 if tier == "quick" else 3000
+    t = 300 if tier == "quick" else 1200
     ml = 2 if tier == "quick" else 3
     obls.append({"id": "path.keys0", "func": "h_path", "params": {"keys": 0}, "timeout": t})
     obls.append({"id": "path.keys1", "func": "h_path", "params": {"keys": 1, "maxlen": ml}, "timeout": t})
